@@ -624,6 +624,9 @@ def family_queries():
            q([g('', {'DISK_GB': 5}), g('1', {'VCPU': 1}, in_tree='p3')]),
            q([g('', {'VCPU': 1}, required=[['HW_CPU_X86_AVX']]), g('1', {'DISK_GB': 5})]),
            q([g('', {'VCPU': 1, 'DISK_GB': 5})], root_required=_setrec(['HW_CPU_X86_AVX']))]
+    # one group that the sharing provider satisfies all by itself (one request, however many anchors)
+    out += [q([g('', {'DISK_GB': 10})]), q([g('_D', {'DISK_GB': 10})]), q([g('', {'DISK_GB': 10})], v=16),
+            q([g('1', {'DISK_GB': 30})], v=25)]
     for a in ('agg1', 'agg2'):
         out += [q([g('', {'VCPU': 1}, member_of=[[a]]), g('1', {'DISK_GB': 10})]),
                 q([g('1', {'DISK_GB': 10}), g('', {'VCPU': 1}, member_of=[[a]])]),
